@@ -1,3 +1,4 @@
+\* exhaustive: every head-size boundary of integers/strings/tags, items of <= 3 nodes
 SPECIFICATION Spec
 CONSTANTS
   Ints <- WideInts
@@ -8,4 +9,5 @@ CONSTANTS
   MaxDepth = 2
   MaxArr = 2
   MaxPairs = 1
-INVARIANTS TypeOK RoundTrip SelfDelimiting NoItemIsAPrefix PrefixFree CanonicalEncoding ReEncode HeadIsShortest WrapIsExact
+  AllowWrap = TRUE
+INVARIANTS TypeOK RoundTrip SelfDelimiting NoItemIsAPrefix PrefixFree CanonicalEncoding ReEncode HeadIsShortest WrapIsExact 
